@@ -789,6 +789,9 @@ class BinaryQuadraticModel(QuadraticViewsMixin):
                 f'The given constraint ({label}) is infeasible with any value'
                 ' for state variables.')
         if penalization_method == "slack":
+            if self.dtype != object:
+                # anything that is not a real number must raise before the slack variables are added
+                float(lagrange_multiplier + 0.0), [float(bias + 0.0) for _, bias in terms]
             slack_upper_bound = int(ub_c - lb_c)
             if slack_upper_bound == 0:
                 self.add_linear_equality_constraint(terms, lagrange_multiplier, -ub_c)
